@@ -11,6 +11,7 @@ import (
 	"io"
 	"net"
 	"os"
+	"regexp"
 	"runtime"
 	"strconv"
 	"strings"
@@ -44,6 +45,7 @@ type sched struct {
 	byName map[string]*proc  // process name -> process
 	adopt  map[string]string // site -> name: an unmanaged goroutine arriving at the site becomes that process
 	passed map[string]int    // "name@site" -> how often the process was released from the site
+	loose  bool              // a process may sit in a sync.Mutex / sync.Once (not durably blocked): quiescence is judged from the goroutine states
 }
 
 func newSched(prefix string) *sched {
@@ -98,9 +100,9 @@ func (s *sched) spawn(name string, f func()) {
 		p.at = "done"
 		s.mu.Unlock()
 	}()
-	synctest.Wait()
+	s.wait()
 	s.release(name)
-	synctest.Wait()
+	s.wait()
 }
 
 // at returns the site the process is parked at, "done", or "blocked" (running into / sitting in a blocking operation).
@@ -137,8 +139,49 @@ func (s *sched) step(name string) bool {
 	if !s.release(name) {
 		return false
 	}
-	synctest.Wait()
+	s.wait()
 	return true
+}
+
+// wait returns when every other goroutine is blocked. synctest.Wait is exact but never returns while a goroutine sits in a
+// sync.Mutex (sync.Once), which is not a durable block; in loose mode the goroutine states of a full stack dump decide instead.
+func (s *sched) wait() {
+	if !s.loose {
+		synctest.Wait()
+		return
+	}
+	quiesceByStates()
+}
+
+var goroutineHeader = regexp.MustCompile(`(?m)^goroutine (\d+) \[([^\]]*)\]:$`)
+
+// quiesceByStates spins until no goroutine other than the caller is running or runnable in three consecutive samples.
+func quiesceByStates() bool {
+	me := goid()
+	buf := make([]byte, 1<<20)
+	calm := 0
+	for i := 0; i < 200000; i++ {
+		runtime.Gosched()
+		n := runtime.Stack(buf, true)
+		busy := false
+		for _, m := range goroutineHeader.FindAllSubmatch(buf[:n], -1) {
+			id, _ := strconv.Atoi(string(m[1]))
+			st := string(m[2])
+			if id != me && (strings.HasPrefix(st, "running") || strings.HasPrefix(st, "runnable")) {
+				busy = true
+				break
+			}
+		}
+		if busy {
+			calm = 0
+			continue
+		}
+		calm++
+		if calm >= 3 {
+			return true
+		}
+	}
+	return false
 }
 
 func (s *sched) count(name, site string) int {
